@@ -9,8 +9,8 @@ Import ListNotations.
 Definition within (tp : Z) (p : Q) (enc : option (Q * Q)) (scale : option (Q * Q)) : bool :=
   match enc, scale with
   | Some (lo, hi), Some (slo, shi) =>
-      let t := Qmax (Qabs slo) (Qabs shi) * D2Q 1 tp in
-      (Qle_bool (lo - t) p && Qle_bool p (hi + t))%bool
+      let t := (Qmax (Qabs slo) (Qabs shi) * D2Q 1 tp)%Q in
+      (Qle_bool (lo - t)%Q p && Qle_bool p (hi + t)%Q)%bool
   | _, _ => false
   end.
 
